@@ -28,6 +28,8 @@ type C15Case struct {
 	// Elsewhere: the config file lives in another directory than the working directory and the
 	// target is given relative to the working directory
 	Elsewhere bool `json:"config_elsewhere,omitempty"`
+	// Preexist: a file already exists at the path the package goes to ("larger" / "smaller" than the package)
+	Preexist string `json:"preexisting_target,omitempty"`
 }
 
 var extOf = map[string]string{"deb": ".deb", "rpm": ".rpm", "apk": ".apk", "ipk": ".ipk", "archlinux": ".pkg.tar.zst"}
@@ -74,6 +76,37 @@ func init() {
 									}
 								}
 							}
+						}
+					}
+				}
+			}
+			// a platform other than linux (deb, rpm and ipk take one): the name and the metadata state the same architecture
+			for _, f := range []string{"deb", "rpm", "ipk"} {
+				for _, plat := range []string{"darwin", "kfreebsd", "linux"} {
+					for _, arch := range []string{"amd64", "arm7", "all", "OVERRIDE"} {
+						for _, pre := range []string{"", "rc1"} {
+							c := baseMeta()
+							c.Platform, c.Prerelease, c.Release = plat, pre, "2"
+							if arch == "OVERRIDE" {
+								c.FormatArch = "customarch"
+							} else {
+								c.Arch = arch
+							}
+							if !yield(C15Case{Part: "name", Format: f, Cfg: c}) {
+								return
+							}
+						}
+					}
+				}
+			}
+			// the target path already holds a larger / a smaller file
+			for _, f := range Formats {
+				for _, tg := range []string{"file", "dir", "empty"} {
+					for _, pe := range []string{"larger", "smaller"} {
+						c := baseMeta()
+						c.Release = "2"
+						if !yield(C15Case{Part: "cli", Format: f, Cfg: c, Target: tg, WithP: true, Preexist: pe}) {
+							return
 						}
 					}
 				}
@@ -315,6 +348,14 @@ func checkC15(env *engine.Env, ci any) engine.Outcome {
 	if c.WithP {
 		args = append(args, "-p", f)
 	}
+	if c.Preexist != "" && !wantFail {
+		n := 4 << 20
+		if c.Preexist == "smaller" {
+			n = 7
+		}
+		os.MkdirAll(filepath.Dir(wantPath), 0o755)
+		os.WriteFile(wantPath, bytes.Repeat([]byte("OLD!"), n/4+1)[:n], 0o600)
+	}
 	cmd := exec.Command(bin, args...)
 	cmd.Dir = work
 	var so, se bytes.Buffer
@@ -332,7 +373,7 @@ func checkC15(env *engine.Env, ci any) engine.Outcome {
 		return nil
 	})
 	sort.Strings(created)
-	out.Key = fmt.Sprintf("%s:%s:%v:%v:exit=%v:%v", f, c.Target, c.WithP, c.Elsewhere, runErr != nil, created)
+	out.Key = fmt.Sprintf("%s:%s:%v:%v:%s:exit=%v:%v", f, c.Target, c.WithP, c.Elsewhere, c.Preexist, runErr != nil, created)
 	if wantFail {
 		if runErr == nil {
 			viol("cli:should-fail:"+c.Target+":"+f, "nfpm %v exited 0; expected an error (stdout %q)", args, so.String())
@@ -356,6 +397,14 @@ func checkC15(env *engine.Env, ci any) engine.Outcome {
 		return out
 	}
 	b, _ := os.ReadFile(wantPath)
+	// the file holds exactly the package (the configuration fixes the mtime, so the library gives the same bytes)
+	if ref, err := buildYAML(text, wantFormat); err == nil && !bytes.Equal(ref, b) {
+		cls := "differs"
+		if len(b) > len(ref) && bytes.Equal(b[:len(ref)], ref) {
+			cls = "trailing-bytes"
+		}
+		viol("cli:not-exactly-the-package:"+cls+":"+c.Target, "nfpm %v left %d bytes at %s (pre-existing file: %q); the package is %d bytes", args, len(b), wantRel, c.Preexist, len(ref))
+	}
 	if got := sniffFormat(b); got != wantFormat {
 		cls := "explicit-p"
 		if !c.WithP {
